@@ -1,6 +1,11 @@
 pub mod common;
 pub mod c01;
 pub mod c02;
+pub mod c03;
+pub mod c04;
+pub mod c06;
+pub mod c07;
+pub mod textlevel;
 pub mod c08;
 pub mod c09;
 pub mod c10;
@@ -18,7 +23,7 @@ pub mod c20;
 use crate::run::Prop;
 
 pub fn registry() -> Vec<Prop> {
-    vec![c01::prop(), c02::prop(), c08::prop(), c09::prop(), c10::prop(), c11::prop(), c12::prop(), c13::prop(), c14::prop(), c15::prop(), c16::prop(), c17::prop(), c18::prop(), c19::prop(), c20::prop()]
+    vec![c01::prop(), c02::prop(), c03::prop(), c04::prop(), c06::prop(), c07::prop(), c08::prop(), c09::prop(), c10::prop(), c11::prop(), c12::prop(), c13::prop(), c14::prop(), c15::prop(), c16::prop(), c17::prop(), c18::prop(), c19::prop(), c20::prop()]
 }
 
 pub fn find(id: &str) -> Option<Prop> {
